@@ -254,6 +254,17 @@ func (a *Analysis) step(st *State, fr *frame, in ssa.Instruction) {
 		a.bind(st, fr, x, mkFieldAddr(xe, fld.Name(), x.Field, x.Type(), structNameOfPtr(x.X.Type())))
 	case *ssa.Index:
 		xe, ie := a.exprOf(st, fr, x.X), a.exprOf(st, fr, x.Index)
+		// element of a copy of a constant package-level table
+		if xe.Op == "ld" && len(xe.Args) == 1 && xe.Args[0].Op == "global" {
+			if tab, ok := a.P.constGlobals()[strings.TrimSuffix(xe.Args[0].S, "#")]; ok {
+				if i, isC := st.rangeOf(ie).IsConst(); isC {
+					if v, has := tab[i]; has {
+						a.bind(st, fr, x, mkConst(v, x.Type()))
+						break
+					}
+				}
+			}
+		}
 		a.bind(st, fr, x, mkAt(xe, ie, x.Type()))
 	case *ssa.IndexAddr:
 		xe, ie := a.exprOf(st, fr, x.X), a.exprOf(st, fr, x.Index)
@@ -1271,6 +1282,9 @@ func isFlagPhi(phi *ssa.Phi, seen map[*ssa.Phi]bool) bool {
 	if !intTypeInfo(phi.Type()).ok {
 		return false
 	}
+	if smallCountedLoop(phi) {
+		return true
+	}
 	if seen == nil {
 		seen = map[*ssa.Phi]bool{}
 	}
@@ -1290,6 +1304,49 @@ func isFlagPhi(phi *ssa.Phi, seen map[*ssa.Phi]bool) bool {
 		}
 	}
 	return true
+}
+
+// smallCountedLoop: the index of a loop with a constant trip count of at most
+// 8 (for i := c0; i < N; i++ over constants, or a range over a fixed-size
+// array). Such an index takes finitely many values, so partitioning on it
+// unrolls the loop in the abstract semantics (table-driven code).
+func smallCountedLoop(phi *ssa.Phi) bool {
+	if len(phi.Edges) != 2 {
+		return false
+	}
+	b := phi.Block()
+	var init *ssa.Const
+	var step *ssa.BinOp
+	for i, e := range phi.Edges {
+		if b.Dominates(b.Preds[i]) {
+			bo, ok := e.(*ssa.BinOp)
+			if !ok || bo.Op != token.ADD || bo.X != ssa.Value(phi) {
+				return false
+			}
+			if one, isC := bo.Y.(*ssa.Const); !isC || one.Value == nil || one.Int64() != 1 {
+				return false
+			}
+			step = bo
+		} else if c, isC := e.(*ssa.Const); isC && c.Value != nil {
+			init = c
+		}
+	}
+	if init == nil || step == nil || len(b.Instrs) == 0 {
+		return false
+	}
+	iff, ok := b.Instrs[len(b.Instrs)-1].(*ssa.If)
+	if !ok {
+		return false
+	}
+	cmp, ok := iff.Cond.(*ssa.BinOp)
+	if !ok || cmp.Op != token.LSS || (cmp.X != ssa.Value(phi) && cmp.X != ssa.Value(step)) {
+		return false
+	}
+	n, isC := cmp.Y.(*ssa.Const)
+	if !isC || n.Value == nil {
+		return false
+	}
+	return n.Int64()-init.Int64() <= 9 && n.Int64() >= init.Int64()
 }
 
 // linMentionsAnyPhi guards against relating a phi to the *old* value of
